@@ -152,6 +152,29 @@ def noBool : ML → Bool
   | .nil => true
   | .cons t ms => noBoolM t && noBool ms
 
+mutual
+/-- no `optional` anywhere inside -/
+def noOptM : MT → Bool
+  | .optional _ => false
+  | .array _ t => noOptM t
+  | .object ms => noOptMs ms
+  | _ => true
+def noOptMs : ML → Bool
+  | .nil => true
+  | .cons t ms => noOptM t && noOptMs ms
+end
+
+def allOptional : ML → Bool
+  | .nil => true
+  | .cons (.optional _) ms => allOptional ms
+  | .cons _ _ => false
+
+/-- optional members are the trailing members of the struct -/
+def optsLast : ML → Bool
+  | .nil => true
+  | .cons (.optional _) ms => allOptional ms
+  | .cons t ms => noOptM t && optsLast ms
+
 /-- identifiers `encode_id` accepts and `decode_id` gives back -/
 def idOk : Ident → Bool
   | .ordinal i => decide (0 < i) && decide (i < 2 ^ 30)
@@ -166,6 +189,10 @@ def idsOk (p : ProtoSpec) : Bool :=
   p.objects.all (fun s => decide (findSpec s.id p.objects = some s) && !s.members.isNil)
 
 /-- Every message / object description of a protocol is one the generator can emit. -/
+def optsLastProto (p : ProtoSpec) : Bool :=
+  p.system.all (fun s => optsLast s.members) && p.game.all (fun s => optsLast s.members) &&
+  p.connless.all (fun s => optsLast s.members)
+
 def wfProto (p : ProtoSpec) : Bool :=
   p.system.all (fun s => wfMs s.members) && p.game.all (fun s => wfMs s.members) &&
   p.connless.all (fun s => wfMs s.members) && p.objects.all (fun s => wfOs s.members)
